@@ -70,20 +70,21 @@ type Prof struct {
 	Fail    int      `json:"fail"` // the first Fail inserts (ClickHouse Do) of this profile's batch fail; the request is then re-submitted
 	// observations: Rows/Funcs/Vagg/NProf are read from the block the insert service finally got ACCEPTED
 	// (the parser output only when the profile was rejected before reaching the service)
-	Attempts     int      `json:"attempts"`      // svc.Request calls made for the (single) profile request
-	Acked        bool     `json:"acked"`         // the last of them succeeded
-	Blocks       []string `json:"blocks"`        // digest of (tree, functions, values_agg, scalar row count) of every block handed to Do, in order
-	BlockOK      []bool   `json:"block_ok"`      // which of them were accepted
-	ParsedDigest string   `json:"parsed_digest"` // the same digest of the parser's ProfileData
-	ReqUnchanged bool     `json:"req_unchanged"` // every svc.Request left the ProfileData deeply equal to what it was
-	Err    string      `json:"err"`
-	NResp  int         `json:"nresp"`  // responses carrying a profile request
-	NOther int         `json:"nother"` // responses carrying any other request
-	NProf  int         `json:"nprof"`  // profiles in those requests (len TimestampNs)
-	NArr   int         `json:"narr"`   // requests whose array fields are non-empty
-	Rows   []Row       `json:"rows"`
-	Funcs  [][2]uint64 `json:"funcs"` // (id, name token)
-	Vagg   [][3]int64  `json:"vagg"`  // (name token, sum, count)
+	Attempts     int         `json:"attempts"`      // svc.Request calls made for the (single) profile request
+	Acked        bool        `json:"acked"`         // the last of them succeeded
+	Blocks       []string    `json:"blocks"`        // digest of (tree, functions, values_agg, scalar row count) of every block handed to Do, in order
+	BlockOK      []bool      `json:"block_ok"`      // which of them were accepted
+	ParsedDigest string      `json:"parsed_digest"` // the same digest of the parser's ProfileData
+	ReqUnchanged bool        `json:"req_unchanged"` // every svc.Request left the ProfileData deeply equal to what it was
+	Err          string      `json:"err"`
+	NResp        int         `json:"nresp"`  // responses carrying a profile request
+	NOther       int         `json:"nother"` // responses carrying any other request
+	NProf        int         `json:"nprof"`  // profiles in those requests (len TimestampNs)
+	NArr         int         `json:"narr"`   // requests whose array fields are non-empty
+	Rows         []Row       `json:"rows"`
+	Funcs        [][2]uint64 `json:"funcs"` // (id, name token)
+	Vagg         [][3]int64  `json:"vagg"`  // (name token, sum, count)
+	payload      []byte      // the payload column of the parser's ProfileData (what MergeProfiles reads back)
 }
 
 type MRow struct {
@@ -131,6 +132,7 @@ type Case struct {
 	// the same rows through ProfService.MergeStackTraces, and the diff view through ProfService.RenderDiff (svc.go)
 	Svc  *SvcObs  `json:"svc,omitempty"`
 	Diff *DiffObs `json:"diff,omitempty"`
+	MP   *MPObs   `json:"mp,omitempty"`
 	// kind hash
 	HA, HB, HH uint64
 }
@@ -327,6 +329,10 @@ func runIngest(c *Case, p *Prof) {
 	case <-time.After(60 * time.Second):
 		p.Err = "timeout"
 		return
+	}
+	p.payload = nil
+	if p.Err == "" && len(pds) == 1 && len(pds[0].Payload) == 1 {
+		p.payload = pds[0].Payload[0]
 	}
 	if p.Err == "" && len(pds) == 1 {
 		store(p, pds[0], vtok, func(s string) int { return tokOf(c.Names, s) })
@@ -723,6 +729,7 @@ func run(c *Case) {
 		project(c)
 		runMerge(c)
 		runService(c)
+		runMergeProfiles(c)
 	}
 }
 
